@@ -10,7 +10,7 @@ A scenario is a JSON-able dict:
    'ops': [[opname, args...], ...]}
 `run_scenario` builds the base geometry, applies the operations one by one, checks the geometry
 after each, and returns None or (finding_key, observed, required, step)."""
-import os, string
+import os, string, tempfile, shutil
 
 
 def names_failure(geo, expect=None, invert=True):
@@ -45,6 +45,15 @@ def names_failure(geo, expect=None, invert=True):
     if expect and 'blocks' in expect: nblk = expect['blocks']
     if len(blks) != nblk:
         return ('block_name_list:blocks-missing', '%d blocks' % len(blks), '%d blocks' % nblk)
+    if invert and geo.num_layers > 0 and geo.block_order in (None, 'layer_column'):
+        built = []
+        if geo.atmosphere_type == 0: built.append(geo.block_name(geo.layerlist[0].name, geo.atmosphere_column_name))
+        elif geo.atmosphere_type == 1: built += [geo.block_name(geo.layerlist[0].name, col.name) for col in geo.columnlist]
+        built += [geo.block_name(lay.name, col.name) for lay in geo.layerlist[1:] for col in geo.columnlist if col.surface > lay.bottom]
+        if built != list(blks):
+            diff = [(a, b) for a, b in zip(built, blks) if a != b][:3]
+            return ('block_name_list:not-the-names-of-its-layers-and-columns', 'first differences (block_name now, listed) %r' % (diff,),
+                    'block_name_list = block_name(layer, column) of the geometry\'s own layers and columns')
     if invert:
         for lay in geo.layerlist:
             for col in geo.columnlist:
@@ -87,6 +96,7 @@ def run_scenario(mg, inp, repo):
     for step, op in enumerate(inp.get('ops', []), 1):
         kind = op[0]
         expect = None
+        mixed = False
         try:
             if kind == 'rename_atm':
                 # give the atmosphere layer the name the numbering assigns to layer number op[1] (if it is free now)
@@ -121,6 +131,50 @@ def run_scenario(mg, inp, repo):
                 geo.setup_block_name_index()
                 geo.setup_block_connection_name_index()
                 expect = {'layers': n + 1}
+            elif kind == 'write_read':
+                # the library also constructs a geometry by READING a file: write this one, read it back
+                before = {'layers': len(geo.layerlist), 'columns': len(geo.columnlist), 'nodes': len(geo.nodelist), 'blocks': len(geo.block_name_list)}
+                conv, atm = geo.convention, geo.atmosphere_type
+                # names that differ only in justification ('D  ' and '  D') are distinct in memory but the reader
+                # re-justifies every name to the right: see known finding write_read:names-differ-only-in-justification
+                mixed = any(len(set(o.name.strip() for o in lst)) < len(lst) for lst in (geo.columnlist, geo.nodelist, geo.layerlist))
+                tmp = tempfile.mkdtemp(prefix='c17-')
+                try:
+                    path = os.path.join(tmp, 'g.dat')
+                    geo.write(path)
+                    if op[1] == 'fresh': geo = mg.mulgrid(path)
+                    else:
+                        # read into a USED object that held a geometry of another convention / atmosphere type
+                        other = mg.mulgrid().rectangular([7.] * 2, [7.] * 2, [2.] * 2, convention=(conv + op[2]) % 4, atmos_type=(atm + op[3]) % 3)
+                        other.block_name(other.layerlist[1].name, other.columnlist[0].name)
+                        geo = other.read(path)
+                finally:
+                    shutil.rmtree(tmp, ignore_errors=True)
+                if (geo.convention, geo.atmosphere_type) != (conv, atm):
+                    return ('write_read:convention-or-atmosphere-type-lost', repr((geo.convention, geo.atmosphere_type)), repr((conv, atm)), step)
+                expect = before
+            elif kind == 'mapped_calls':
+                # block_name with a caller's block mapping, then without: later results must not depend on the earlier calls,
+                # and the caller's dictionary must not be changed
+                pairs = [(lay.name, col.name) for lay in geo.layerlist for col in geo.columnlist][:op[1]]
+                plain = [geo.block_name(l, c) for l, c in pairs]
+                bm = dict((plain[i], plain[(i + 1) % len(plain)]) for i in range(len(plain)))
+                bm0 = dict(bm)
+                for l, c in pairs: geo.block_name(l, c, bm)
+                if bm != bm0:
+                    return ('block_name:callers-blockmap-mutated', repr(sorted(bm.items())[:3]), 'block mapping left as passed', step)
+                dflt = mg.mulgrid.block_name.__defaults__
+                if dflt != ({},):
+                    return ('block_name:shared-default-blockmap-mutated', repr(dflt)[:200], 'default block mapping stays empty', step)
+            elif kind == 'other_objects':
+                # other live geometries of other conventions are built and used; this one must not notice
+                for k in range(1, 4):
+                    o = mg.mulgrid().rectangular([4.] * 2, [4.] * 1, [1.] * 3, convention=(geo.convention + k) % 4, atmos_type=(geo.atmosphere_type + k) % 3,
+                                                 justify='rl'[k % 2], chars=[string.ascii_uppercase, 'qrs', string.ascii_lowercase][k % 3])
+                    for lay in o.layerlist:
+                        for col in o.columnlist: o.block_name(lay.name, col.name, {o.block_name(lay.name, col.name): 'zz%3d' % k})
+                    o.add_layers([1.] * 4, 0., 'l', 'xyzxyz', True)
+                    o.convention = (o.convention + 1) % 4
             else:
                 raise ValueError(kind)
         except mg.NamingConventionError:
@@ -128,7 +182,10 @@ def run_scenario(mg, inp, repo):
         except Exception as e:
             return ('%s:unexpected-exception' % kind, '%s: %s' % (type(e).__name__, str(e)[:200]), 'geometry or NamingConventionError', step)
         f = names_failure(geo, expect, invert=generated)
-        if f: return (kind + ':' + f[0],) + f[1:] + (step,)
+        if f:
+            if kind == 'write_read' and mixed:
+                return ('write_read:names-differ-only-in-justification', f[1] + ' (' + f[0] + ')', f[2], step)
+            return (kind + ':' + f[0],) + f[1:] + (step,)
     return None
 
 
@@ -158,6 +215,20 @@ def scenarios(rng, thorough):
                             [['refine', []], ['rename_atm', 6], ['refine_layers', 2, []]],
                             [['rename_column', 0], ['rename_column', 3], ['add_layers', 5], ['rename_atm', 7], ['add_layers', 8], ['refine_layers', 2, [1]]]):
                     out.append({'scenario': 'edit', 'base': base, 'ops': ops})
+    # (d) geometries constructed by READING: write-then-read of constructed (and edited) geometries, into a fresh and into a used object;
+    #     state carried between calls / objects: mapped block_name calls, other live geometries
+    for conv in range(4):
+        for atm in (0, 1, 2):
+            for justify, chars, sp in (('r', lo, True), ('l', up, True), ('r', lo, False)):
+                base = {'rect': {'n': [3, 2, 3], 'convention': conv, 'atmos_type': atm, 'justify': justify, 'chars': chars, 'spaces': sp}}
+                for ops in ([['write_read', 'fresh']],
+                            [['write_read', 'reuse', 1, 1], ['refine_layers', 2, []], ['write_read', 'reuse', 2, 0]],
+                            [['refine', [1]], ['rename_atm', 5], ['refine_layers', 2, []], ['write_read', 'fresh'], ['rename_column', 2], ['write_read', 'reuse', 3, 2]],
+                            [['mapped_calls', 12], ['rename_column', 1], ['write_read', 'fresh'], ['mapped_calls', 5]],
+                            [['other_objects'], ['mapped_calls', 30], ['other_objects'], ['refine_layers', 2, [1]]]):
+                    out.append({'scenario': 'edit', 'base': base, 'ops': ops})
+    for f in ('g1', 'g2', 'g3', 'g4', 'g5', 'g6', 'g7'):
+        out.append({'scenario': 'edit', 'base': {'file': 'tests/mulgrid/%s.dat' % f}, 'ops': [['write_read', 'fresh'], ['write_read', 'reuse', 1, 1]]})
     # add_layers on an existing geometry across the skipped layer number (convention 2: 'at' = layer 46)
     out.append({'scenario': 'edit', 'base': {'rect': {'n': [1, 1, 2], 'convention': 2, 'atmos_type': 0}}, 'ops': [['add_layers', 47], ['refine_layers', 2, [1]]]})
     out.append({'scenario': 'edit', 'base': {'rect': {'n': [1, 1, 30], 'convention': 2, 'atmos_type': 1}}, 'ops': [['refine_layers', 2, []]]})
@@ -174,7 +245,84 @@ def scenarios(rng, thorough):
                              'case': rng.choice([None, None, 'l', 'u'])}}
             ops = []
             for _k in range(rng.randint(1, 5)):
-                ops.append(rng.choice([['rename_atm', rng.randint(1, 14)], ['refine_layers', rng.choice([2, 3]), rng.choice([[], [1], [1, 2]])],
+                ops.append(rng.choice([['write_read', 'fresh'], ['write_read', 'reuse', rng.randrange(4), rng.randrange(3)], ['mapped_calls', rng.randint(1, 20)], ['other_objects'],
+                                       ['rename_atm', rng.randint(1, 14)], ['refine_layers', rng.choice([2, 3]), rng.choice([[], [1], [1, 2]])],
                                        ['refine', rng.choice([[], [0], [0, 1]])], ['rename_column', rng.randrange(8)], ['add_layers', rng.randint(1, 50)]]))
             out.append({'scenario': 'edit', 'base': base, 'ops': ops})
+    rng.shuffle(out)            # the verdict of a scenario must not depend on what ran before it
     return out
+
+
+# ----------------------------------------------------------------------
+# results must not depend on earlier calls or other live objects; caller-owned arguments and the
+# functions' default arguments must be left alone
+DEFAULT_HOLDERS = ['int_to_chars', 'new_dict_key', 'mulgrid.block_name', 'mulgrid.add_layers', 'mulgrid.rectangular', 'mulgrid.refine',
+                   'mulgrid.refine_layers', 'mulgrid.column_name_from_number', 'mulgrid.node_name_from_number', 'mulgrid.layer_name_from_number',
+                   'mulgrid.new_column_name', 'mulgrid.new_node_name']
+
+
+def defaults_snapshot(mg):
+    out = {}
+    for nm in DEFAULT_HOLDERS:
+        o = mg
+        for part in nm.split('.'): o = getattr(o, part, None)
+        if o is not None: out[nm] = repr(getattr(o, '__defaults__', None))
+    return out
+
+
+def _call(mg, geo, what, num, jf, chars, sp):
+    fn = {'column': geo.column_name_from_number, 'node': geo.node_name_from_number, 'layer': geo.layer_name_from_number}[what]
+    try: return fn(num, str.ljust if jf == 'l' else str.rjust, chars, sp)
+    except mg.NamingConventionError: return 'NamingConventionError'
+
+
+def purity_checks(mg, rng, which=None):
+    """yields (check name, key, input, observed, required) for every clause that fails"""
+    lo, up = string.ascii_lowercase, string.ascii_uppercase
+    snap0 = defaults_snapshot(mg)
+    # 1. the numbering functions: same answer whatever was called before, on a used or a fresh object, in any order
+    if which in (None, 'numbering-order'):
+        for conv in range(4):
+            geo = mg.mulgrid(convention=conv)
+            ins = [(rng.choice(['column', 'node', 'layer']), rng.choice([1, 2, 26, 27, 99, 100, 702, 703, 999, 1000, rng.randint(1, 20000)]),
+                    rng.choice('rl'), rng.choice([lo, up, 'klmn']), rng.random() < 0.7) for _ in range(150)]
+            first = [_call(mg, geo, *a) for a in ins]
+            others = [mg.mulgrid(convention=(conv + k) % 4, atmos_type=k % 3) for k in range(1, 4)]
+            for o in others:
+                for a in ins[:40]: _call(mg, o, *a)
+            order = list(range(len(ins))); rng.shuffle(order)
+            fresh = mg.mulgrid(convention=conv)
+            for i in order:
+                again, new = _call(mg, geo, *ins[i]), _call(mg, fresh, *ins[i])
+                if again != first[i] or new != first[i]:
+                    yield ('numbering-order', '%s_name_from_number:result-depends-on-earlier-calls' % ins[i][0],
+                           {'purity': 'numbering-order', 'convention': conv, 'call': list(ins[i])}, repr((first[i], again, new)), 'the same name every time')
+                    break
+    # 2. caller-owned arguments are not changed
+    if which in (None, 'arguments'):
+        d = dict.fromkeys(['  a', '  b', '  d']); d0 = dict(d)
+        mg.new_dict_key(d, 0, str.rjust, 3, lo, True)
+        if d != d0: yield ('arguments', 'new_dict_key:callers-dictionary-mutated', {'purity': 'arguments'}, repr(d), repr(d0))
+        th = [1., 2., 3.]; xb = [10.] * 3; yb = [10.] * 2; zb = [5.] * 3
+        g = mg.mulgrid().rectangular(xb, yb, zb, convention=1, atmos_type=1)
+        g.add_layers(th, 0., 'r', lo, True)
+        if (th, xb, yb, zb) != ([1., 2., 3.], [10.] * 3, [10.] * 2, [5.] * 3):
+            yield ('arguments', 'add_layers:callers-list-mutated', {'purity': 'arguments'}, repr((th, xb, yb, zb)), 'lists left as passed')
+        for col in g.columnlist: g.set_column_num_layers(col)
+        g.setup_block_name_index()
+        lays = [g.layerlist[1]]; cols = [g.columnlist[0]]
+        g.refine_layers(lays, 2); g.refine(cols)
+        if len(lays) != 1 or len(cols) != 1:
+            yield ('arguments', 'refine:callers-list-mutated', {'purity': 'arguments'}, repr((len(lays), len(cols))), 'lists left as passed')
+    # 3. default arguments (shared between all calls) are not changed by any of the above
+    if which in (None, 'defaults'):
+        if which == 'defaults':
+            for _ in purity_checks(mg, rng, 'numbering-order'): pass
+            for _ in purity_checks(mg, rng, 'arguments'): pass
+            g = mg.mulgrid().rectangular([1.] * 2, [1.] * 2, [1.] * 2, atmos_type=1)
+            for lay in g.layerlist:
+                for col in g.columnlist: g.block_name(lay.name, col.name)
+        snap1 = defaults_snapshot(mg)
+        for nm in snap0:
+            if snap1.get(nm) != snap0[nm]:
+                yield ('defaults', nm.split('.')[-1] + ':default-argument-mutated', {'purity': 'defaults', 'function': nm}, snap1.get(nm), snap0[nm])
